@@ -14,7 +14,7 @@ out = {}
 for f in db.functions:
     if f.body is None:
         continue
-    ls = [(v.n, v.t or '') for v in normal.locals_of(f)]
+    ls = [(v.n, v.t or '', normal.init_shape(v)) for v in normal.locals_of(f)]
     if ls:
         out[normal.fkey(f)] = ls
 json.dump(out, open(os.path.join(HERE, 'sa', 'baseline_locals.json'), 'w'), indent=0, sort_keys=True)
